@@ -273,6 +273,11 @@ func (sc *siteScan) deref(pg *PG, ex *explorer, st *Site, pos token.Pos, states 
 		var lp LP
 		var rule, name string
 		switch {
+		case R.Op == "res" && R.Args[0].Op == "call" && nilWithoutError[R.Args[0].Name] == R.Name:
+			// a library call that reports failure by a nil pointer alone (no error value)
+			lp = A("-IsNil(" + R.Key() + ")")
+			rule = "O-C09.1"
+			name = "result of " + shortCallee(R.Args[0].Name) + " tested for nil before use (" + st.Why + ")"
 		case R.Op == "res" && R.Args[0].Op == "call":
 			C := R.Args[0]
 			sig, ok := callErrIdx[C.Name]
@@ -312,6 +317,12 @@ func (sc *siteScan) deref(pg *PG, ex *explorer, st *Site, pos token.Pos, states 
 			}
 		}
 	}
+}
+
+// nilWithoutError: library functions whose pointer result (index given) is nil
+// on failure and that return no error to test instead.
+var nilWithoutError = map[string]string{
+	"encoding/pem.Decode": "0",
 }
 
 func shortCallee(n string) string {
@@ -1227,6 +1238,11 @@ func checkC09(c *Check) {
 	c.floor("non-range loops in product code", 3, sc.nloops)
 	c.floor("explicit panic sites in product code", 5, sc.npanics)
 	coseKeyRestriction(c, "O-C09.2")
+	// the aggregator dereferences the elements of the pre-sized per-responder slice: every
+	// iteration of the responder loop that goes on must have stored its slot (O-C04.4)
+	c.floor("responder slot rules (shared with C04)", 1, shareRulesWhere(c, checkC04, []string{"O-C04.4"}, "O-C09.2", "responder results: ", func(n string) bool {
+		return strings.Contains(n, "recorded in its slot")
+	}))
 	_ = fmt.Sprint
 	_ = nunsup
 }
